@@ -712,10 +712,13 @@ fn mutation_cases(seed: u64, n: usize, first_id: u64) -> Vec<J> {
     let mut out = Vec::new();
     for i in 0..n {
         let transport = ["execute", "json", "get", "multipart", "ws"][i % 5];
-        let d = docs[rng.gen_range(0..docs.len())];
+        let di = rng.gen_range(0..docs.len());
+        let d = docs[di];
+        // only the upload document carries the (forged) marker, so that the marker trigger stays narrow
+        let vars = if di == 1 { "{\"f\":\"#__graphql_file__:0\"}" } else { "{\"i\":2,\"s\":\"x\",\"l\":[3],\"o\":{\"i\":4}}" };
         let l = match transport {
             "multipart" => valid_lr(2),
-            _ => Lr { query: d.to_string(), op: None, vars: Some("{\"i\":2,\"s\":\"x\",\"l\":[3],\"o\":{\"i\":4},\"f\":\"#__graphql_file__:0\"}".into()),
+            _ => Lr { query: d.to_string(), op: None, vars: Some(vars.into()),
                       ext: Some("{\"persistedQuery\":{\"version\":1,\"sha256Hash\":\"00\"}}".into()), ..Default::default() },
         };
         let src: Vec<u8> = match transport {
